@@ -86,7 +86,19 @@ def generate():
     items.append(skel_def("skel_unlock_tls", skeleton(fn(r"Epoch::unlock\s*\(\s*\)"), ["current_thread_id", "unlock"])))
     items.append(skel_def("skel_create_accessor", skeleton(fn(r"Epoch::create_accessor\s*\(\s*\)"), ["allocate", "ensure"])))
     items.append(skel_def("skel_accessor_number", skeleton(fn(r"Epoch::accessor_number\s*\(\s*\)"), ["end"])))
-    items.append(skel_def("skel_unregister_accessor", skeleton(fn(r"Epoch::unregister_accessor\s*\("), ["deallocate"])))
+    unreg = fn(r"Epoch::unregister_accessor\s*\(")
+    sk_unreg = skeleton(unreg, ["deallocate"])
+    items.append(skel_def("skel_unregister_accessor", sk_unreg))
+    # repaired shape (fix 6566b0b): an accessor released inside a region closes the region first
+    ur = strip_comments(unreg)
+    m = re.search(r"auto\s*&\s*slot\s*=\s*_slots\s*\[\s*index\s*\]\s*;\s*if\s*\(\s*slot\.lock_times\s*!=\s*0\s*\)\s*\{\s*"
+                  r"slot\.lock_times\s*=\s*(\d+)\s*;\s*slot\.version\.store\s*\(\s*([^,]+),[^;]*;\s*\}\s*_id_allocator\.deallocate\s*\(\s*index\s*\)", ur)
+    items.append(bool_def("unregisterClosesOpenRegion", bool(m)))
+    if not m or [x.split()[0] for x in sk_unreg] != [".store", ".call"]:
+        raise ExtractError("unregister_accessor: shape (close an open region, then deallocate) not found: %s" % sk_unreg)
+    items.append(nat_def("unregisterDepthAfter", int(m.group(1))))
+    items.append(ord_def("releaseStoreOrd", _site_ord(sk_unreg[0])))
+    unreg_max = m.group(2).strip()
     items.append(skel_def("skel_accessor_lock", skeleton(fn(r"Epoch::Accessor::lock\s*\(\s*\)"), ["lock"])))
     items.append(skel_def("skel_accessor_unlock", skeleton(fn(r"Epoch::Accessor::unlock\s*\(\s*\)"), ["unlock"])))
     items.append(skel_def("skel_accessor_release", skeleton(fn(r"Epoch::Accessor::release\s*\(\s*\)"), ["unregister_accessor"])))
@@ -192,6 +204,7 @@ def generate():
         "sizeofSlot": "sizeof(::babylon::Epoch::Slot)",
         "versionOffset": "offsetof(::babylon::Epoch::Slot, version)",
         "unlockStoresMax": "(unsigned long long)((%s) == UINT64_MAX)" % maxexpr,
+        "unregisterStoresMax": "(unsigned long long)((%s) == UINT64_MAX)" % unreg_max,
         "defaultBlockSize": "::babylon::ConcurrentVector<::babylon::Epoch::Slot>::DEFAULT_BLOCK_SIZE",
     }, prologue="#include <cstdint>")
     items.append(bool_def("slotInitIsMax", c["slotInit"] == 1))
@@ -199,6 +212,7 @@ def generate():
     items.append(nat_def("sizeofSlot", c["sizeofSlot"]))
     items.append(nat_def("versionOffset", c["versionOffset"]))
     items.append(bool_def("unlockStoresMax", c["unlockStoresMax"] == 1))
+    items.append(bool_def("unregisterStoresMax", c["unregisterStoresMax"] == 1))
     items.append(nat_def("defaultBlockSize", c["defaultBlockSize"]))
     items.append("def maxVersion : Nat := 18446744073709551615")
     emit("Epoch", items)
